@@ -327,7 +327,7 @@ FAMILIES = {
     "C15": [("siftool", siftool_args)],
     "C10": [("hostile", hostile_args), ("load", load_args), ("verify", verify_args("tamper", 24, 300))],
     "C18": [("concurrent", concurrent_args), ("hist", hist_small_args), ("verify", verify_args("signedby", 20, 200))],
-    "C04": [("verify", verify_args("tamper", 60, 100000))],
+    "C04": [("verify", verify_args("tamper", 36, 100000))],
     "C05": [("verify", verify_args("coverage", 80, 100000)), ("verify", verify_args("tamper", 30, 400))],
     "C06": [("verify", verify_args("signverify", 40, 600)), ("verify", verify_args("keys", 24, 200))],
     "C07": [("verify", verify_args("keys", 48, 600))],
